@@ -61,7 +61,10 @@ def check(prog: Program, tier: str) -> Result:
 
 
 # ---------------------------------------------------------------------------
-def solve_root_paths(prog: Program):
+def solve_root_paths(prog: Program, values=()):
+    """paths of utilities.solve_root; `values`: [(expression, constant)] - a local that is assigned the expression gets the
+    constant instead.  Used to ask 'what is returned when the objective is negative at both bounds' without depending on how
+    the function tests for it."""
     fi = prog.func(f"{UT}.solve_root")
 
     class H(Hooks):
@@ -74,11 +77,57 @@ def solve_root_paths(prog: Program):
                 return Rat.atom("BRENTQ_ROOT")
             return None
 
+        def on_assign(self, key, val, stmt, st, eng):
+            if isinstance(val, Rat):
+                for e_, c_ in values:
+                    if val.equals(e_):
+                        st.env[key] = c_
+
     eng = Engine(prog, fi, H())
     st = State()
     for p in fi.params():
         st.env[p] = Rat.atom(p)
     return fi, eng.run_function(st)
+
+
+def solve_root_cases(prog: Program):
+    """what solve_root returns in each sign case of the objective at the two bounds - decided by running its paths once per
+    case with the two signs given as constants, so that it does not matter how (in which order, by statements or conditional
+    expressions) the function tests for the case.  Yields (tag, description, wanted text, ok, value, where, function, path, all paths)"""
+    from .hybrid_common import resolve_ite
+
+    lower, upper = Rat.atom("lower"), Rat.atom("upper")
+    so = lambda a: sym.call("int", [sym._plain_call("OBJ", [a]) / sym.call("abs", [sym._plain_call("OBJ", [a])])])  # noqa: E731
+    sl, su = so(lower), so(upper)
+    one = Rat.const(1)
+    BR = Rat.atom("BRENTQ_ROOT")
+    cases = [
+        ("differ", [(su, one), (sl, -one)], BR, "the Brent root", "objective negative at lower, positive at upper -> Brent root"),
+        ("differ", [(su, -one), (sl, one)], BR, "the Brent root", "objective positive at lower, negative at upper -> Brent root"),
+        ("both-negative", [(su, -one), (sl, -one)], lower, "the lower bound (for sizing: an over-sized field must be clamped at min_height)", "objective negative at both bounds -> lower bound"),
+        ("both-positive", [(su, one), (sl, one)], upper, "the upper bound (for sizing: an under-sized field must be reported at max_height)", "objective positive at both bounds -> upper bound"),
+    ]
+    for tag, pre, want, wtxt, desc in cases:
+        fi, fins = solve_root_paths(prog, values=pre)
+        for f in fins:
+            if f.exit is None or f.exit[0] != "return":
+                continue
+            if f.facts.get("None == lower") is True or f.facts.get("None == upper") is True:
+                continue
+            rv = f.exit[1]
+            v = resolve_ite(rv, f) if isinstance(rv, Rat) else rv
+            ok = isinstance(v, Rat) and v.equals(want)
+            yield tag, desc, wtxt, ok, v, prog.loc(fi, f.exit[2]), fi, f, fins
+
+
+def ite_leaves(x: Rat, depth: int = 4):
+    """the values a conditional expression  a if c else b  (kept as an ite(...) atom) can take; [x] for anything else"""
+    if depth > 0 and len(x.all_atoms()) >= 1:
+        for a in x.all_atoms():
+            df = sym.ATOM_DEF.get(a)
+            if df and df[0] == "call" and df[1] == "ite" and x.equals(Rat.atom(a)):
+                return ite_leaves(df[2][1], depth - 1) + ite_leaves(df[2][2], depth - 1)
+    return [x]
 
 
 def _height_value_set(prog: Program, res: Result):
@@ -98,7 +147,9 @@ def _height_value_set(prog: Program, res: Result):
         rv = f.exit[1]
         sig = " & ".join(k for k, tr, ln in f.trail if "None ==" not in k)[:140]
         allowed = {"lower": lower, "upper": upper, "brentq": Rat.atom("BRENTQ_ROOT"), "initial guess": x0}
-        which = next((nm for nm, v in allowed.items() if isinstance(rv, Rat) and rv.equals(v)), None)
+        leaves = ite_leaves(rv) if isinstance(rv, Rat) else [rv]
+        names = [next((nm for nm, v in allowed.items() if isinstance(lf, Rat) and lf.equals(v)), None) for lf in leaves]
+        which = " or ".join(sorted(set(names))) if names and all(nm is not None for nm in names) else None
         res.ob("R02.1", f"solve_root [{sig}]: returns {which or vkey(rv)} (one of lower / upper / brentq root / initial guess)", which is not None, prog.loc(fi, f.exit[2]))
         if which is None:
             res.violation("R02.1", f"solve_root-value|{vkey(rv)[:80]}", prog.loc(fi, f.exit[2]), fi.qualname,
@@ -111,7 +162,19 @@ def _height_value_set(prog: Program, res: Result):
                 if not ok:
                     res.violation("R02.1", "brentq-bracket", prog.loc(fi, e.node), fi.qualname, f"brentq is called with the bracket ({vkey(args[1]) if len(args) > 1 else '?'}, {vkey(args[2]) if len(args) > 2 else '?'}) instead of (lower, upper)")
     res.count("solve_root_paths", n)
-    res.floor("solve_root_paths", 3)
+    res.floor("solve_root_paths", 2)
+    # which bound: limits met with room to spare at both ends of the window -> min_height ; unmet at both ends -> max_height
+    m = 0
+    for tag, desc, wtxt, ok, v, where, fi_, f, _ in solve_root_cases(prog):
+        if tag == "differ":
+            continue
+        m += 1
+        res.ob("R02.1", f"solve_root: {desc}", ok, where)
+        if not ok:
+            res.violation("R02.1", f"clamp|{tag}|{vkey(v)[:40]}", where, fi_.qualname,
+                          f"with the objective {tag.split('-')[1]} at both bounds solve_root returns {vkey(v)[:80]} instead of {wtxt}: the design is reported at the wrong end of the height window")
+    res.count("clamp_cases", m)
+    res.floor("clamp_cases", 2)
 
     # GHE.size binds the window and publishes the solver's value
     q = f"{GHX}.GHE.size"
@@ -621,7 +684,68 @@ def _raise_discipline(prog: Program, res: Result):
                               f"raise {name}: a run must end with a design or a ValueError ({why})")
     res.count("raise_statements", n)
     res.floor("raise_statements", 25)
+    # an expression that cannot be evaluated ends the run with TypeError whatever is being raised or returned: text + number
+    n_add = 0
+    for q, fi in sorted(prog.funcs.items()):
+        for b in walk_no_nested(fi.node):
+            if isinstance(b, ast.BinOp) and isinstance(b.op, ast.Add):
+                ta, tb = _static_type(fi.node, b.left), _static_type(fi.node, b.right)
+                if "str" in (ta, tb):
+                    n_add += 1
+                if {ta, tb} == {"str", "num"}:
+                    res.ob("R02.4", f"{q}: '{ast.unparse(b)[:60]}' adds text and a number", False, prog.loc(fi, b))
+                    res.violation("R02.4", f"{q}|str+num|{norm_stmt(b)[:50]}", prog.loc(fi, b), q,
+                                  f"'{ast.unparse(b)[:90]}' concatenates text with a number ({ast.unparse(b.right if tb == 'num' else b.left)[:40]}): evaluating it raises TypeError, "
+                                  "so the run ends with neither a design nor the ValueError that was meant")
+    res.count("text_concatenations", n_add)
     res.ob("R02.4", f"every explicit raise in the package is ValueError or unreachable by exhaustiveness ({n} raise statements)", not any(f.rule == "R02.4" for f in res.findings), "ghedesigner/")
+
+
+NUM_CALLS = {"len", "int", "float", "round", "abs", "sum", "floor", "ceil", "sqrt", "math.floor", "math.ceil"}
+STR_CALLS = {"str", "repr", "format"}
+
+
+def _static_type(fn, e, depth: int = 4):
+    """'str' | 'num' | None (unknown) - only what is certain from the expression itself and single local definitions"""
+    if depth <= 0:
+        return None
+    if isinstance(e, ast.Constant):
+        if isinstance(e.value, str):
+            return "str"
+        if isinstance(e.value, (int, float)) and not isinstance(e.value, bool):
+            return "num"
+        return None
+    if isinstance(e, ast.JoinedStr):
+        return "str"
+    if isinstance(e, ast.Call):
+        cn = attr_chain(e.func)
+        if cn in NUM_CALLS:
+            return "num"
+        if cn in STR_CALLS or (isinstance(e.func, ast.Attribute) and e.func.attr in ("format", "join", "upper", "lower", "strip", "title")):
+            return "str"
+        return None
+    if isinstance(e, ast.BinOp):
+        ta, tb = _static_type(fn, e.left, depth - 1), _static_type(fn, e.right, depth - 1)
+        if isinstance(e.op, ast.Add):
+            return ta if ta == tb else ("str" if "str" in (ta, tb) and None in (ta, tb) else None)
+        if isinstance(e.op, ast.Mod) and ta == "str":
+            return "str"
+        if isinstance(e.op, (ast.Sub, ast.Div, ast.FloorDiv, ast.Pow)) and "str" not in (ta, tb):
+            return "num" if (ta == "num" or tb == "num") else None
+        if isinstance(e.op, ast.Mult):
+            if ta == tb == "num":
+                return "num"
+            if {ta, tb} == {"str", "num"}:
+                return "str"
+        return None
+    if isinstance(e, ast.UnaryOp) and isinstance(e.op, (ast.USub, ast.UAdd)):
+        return _static_type(fn, e.operand, depth - 1)
+    if isinstance(e, ast.Name):
+        defs = [s_ for s_ in walk_no_nested(fn) if isinstance(s_, ast.Assign) and len(s_.targets) == 1 and isinstance(s_.targets[0], ast.Name) and s_.targets[0].id == e.id]
+        others = [x for x in walk_no_nested(fn) if isinstance(x, ast.Name) and x.id == e.id and isinstance(x.ctx, ast.Store)]
+        if len(defs) == 1 and len(others) == 1 and e.id not in [a.arg for a in fn.args.args + fn.args.kwonlyargs]:
+            return _static_type(fn, defs[0].value, depth - 1)
+    return None
 
 
 def _exhaustive_else(prog: Program, fi, r: ast.Raise):
@@ -745,6 +869,16 @@ def _guarded_nonempty(fn, name: str, use: ast.AST) -> bool:
 
 
 VARIANTS = [
+    Variant("solve_root without a sign change takes the bound 'closest to the root' (seeded C02_e)", "break",
+            [(UT, "    elif kg_plus_sign == -1 and kg_minus_sign == -1:\n        x = lower\n    elif kg_plus_sign == 1 and kg_minus_sign == 1:\n        x = upper\n", "    else:\n        x = lower if abs(minus) < abs(plus) else upper\n")], "R02.1"),
+    Variant("solve_root without a sign change chooses the bound by a conditional expression on the sign", "benign",
+            [(UT, "    elif kg_plus_sign == -1 and kg_minus_sign == -1:\n        x = lower\n    elif kg_plus_sign == 1 and kg_minus_sign == 1:\n        x = upper\n", "    else:\n        x = lower if kg_plus_sign == -1 else upper\n")]),
+    Variant("solve_root: the two clamp branches exchanged", "break",
+            [(UT, "    elif kg_plus_sign == -1 and kg_minus_sign == -1:\n        x = lower\n    elif kg_plus_sign == 1 and kg_minus_sign == 1:\n        x = upper\n", "    elif kg_plus_sign == -1 and kg_minus_sign == -1:\n        x = upper\n    elif kg_plus_sign == 1 and kg_minus_sign == 1:\n        x = lower\n")], "R02.1"),
+    Variant("failed search: message built by adding a count to the text (seeded C02_f)", "break",
+            [(SR, '                raise ValueError("Search failed.")\n        else:\n            # if we\'ve gotten here', '                n_excluded = len(self.coordinates_domain) - 1 - x_r_idx\n                if n_excluded > 0:\n                    raise ValueError("Search failed. Note: " + n_excluded + " larger field(s) were not considered.")\n                raise ValueError("Search failed.")\n        else:\n            # if we\'ve gotten here')], "R02.4"),
+    Variant("failed search: message with the count formatted into the text", "benign",
+            [(SR, '                raise ValueError("Search failed.")\n        else:\n            # if we\'ve gotten here', '                n_excluded = len(self.coordinates_domain) - 1 - x_r_idx\n                if n_excluded > 0:\n                    raise ValueError("Search failed. Note: " + str(n_excluded) + " larger field(s) were not considered.")\n                raise ValueError("Search failed.")\n        else:\n            # if we\'ve gotten here')]),
     Variant("cap index cached in the base constructor, stale after subclasses swap the domain (seeded C02_d)", "break",
             [(SR, "        self.max_iter = max_iter\n        self.disp = disp\n\n        b = borehole_spacing(borehole, coordinates)",
               "        self.max_iter = max_iter\n        self.disp = disp\n\n        self.last_allowed_idx = None\n        if sim_params.max_boreholes is not None:\n            allowed = [idx for idx, x in enumerate(coordinates_domain) if len(x) < sim_params.max_boreholes]\n            if not allowed:\n                raise ValueError(\"Search failed: every field in the domain has at least max_boreholes boreholes.\")\n            self.last_allowed_idx = allowed[-1]\n\n        b = borehole_spacing(borehole, coordinates)"),
